@@ -319,3 +319,20 @@ def const_table(ctx, k, depth=4):
             return rows
         return None
     return None
+
+
+def return_slots(body, limit=6):
+    """Locals whose value is the function's result: _0 and every local that is only copied / moved
+    into it (`_9 = Ok(..); _0 = move _9`)."""
+    slots = {0}
+    for _ in range(limit):
+        grew = False
+        for bi, j, s in body.assigns():
+            if s["lhs"]["l"] in slots and not s["lhs"]["p"] and s["rv"]["k"] == "use":
+                pl = op_place(s["rv"]["op"])
+                if pl and not pl["p"] and pl["l"] not in slots:
+                    slots.add(pl["l"])
+                    grew = True
+        if not grew:
+            break
+    return slots
